@@ -56,12 +56,16 @@ structure Case where
       is released (`aEnd` = "cancel" | "deadline" | "release"). -/
   pairOp : String := ""
   aEnd : String := ""
+  /-- the runs before the operation proper used another argument shape (other SQL): the
+      statement cached by them is not the one the operation needs -/
+  otherShape : Bool := false
 deriving Repr, Inhabited
 
 def Case.onTx (c : Case) : Bool := c.path.startsWith "tx"
 /-- cached when the operation proper starts: by the scenario, or because the preliminary
     run on the DB prepared and cached the statement -/
-def Case.cached (c : Case) : Bool := c.path.endsWith "cached" || (c.path == "db" && c.preCtx == "live")
+def Case.cached (c : Case) : Bool :=
+  (c.path.endsWith "cached" || (c.path == "db" && c.preCtx == "live")) && !c.otherShape
 
 /-- what the preliminary run returns: the context's error if it was cancelled (ErrTXDone
     first on the cached path of a finished transaction cannot occur: the TX is still open),
